@@ -525,10 +525,18 @@ func (j *c07Judge) runOnce(sc *c07Scenario, seed int64) *c07Fail {
 		go func() { // makes sure the context becomes done even if the run is stuck before tick fireAt
 			defer atomic.StoreInt32(&ctlDone, 1)
 			if r.fireAt > 0 {
-				for i := 0; i < 2000 && atomic.LoadInt32(&r.ticks) < r.fireAt; i++ {
+				returned := func() bool {
+					select {
+					case <-callDone:
+						return true
+					default:
+						return false
+					}
+				}
+				for i := 0; i < 2000 && atomic.LoadInt32(&r.ticks) < r.fireAt && !returned(); i++ {
 					runtime.Gosched()
 				}
-				if atomic.LoadInt32(&r.ticks) < r.fireAt {
+				if atomic.LoadInt32(&r.ticks) < r.fireAt && !returned() {
 					time.Sleep(time.Duration(100+r.rnd(900)) * time.Microsecond)
 				}
 			}
@@ -634,6 +642,9 @@ func (j *c07Judge) runOnce(sc *c07Scenario, seed int64) *c07Fail {
 		close(feederQuit)
 		<-feederDone
 		j.rep.Count("source_not_drained", 1)
+	}
+	for atomic.LoadInt32(&ctlDone) == 0 { // the driver's own context controller ends right after the call returned
+		runtime.Gosched()
 	}
 	var survivors []c07G
 	proven := false
